@@ -73,8 +73,19 @@ def corr_targets(cover, tier, key=None):
 
 def run(pid, tier, seed, idx, info, t0, files, notes, cover, hdr, per_fn, rule, trusted, assumptions, extra=None, targets=None, fuel=400, footer=''):
     core.LEMMA_TIMEOUT[0] = 20 if tier == 'quick' else 300
+    # lemmas recorded as slow (they exceeded the quick per-lemma limit when the baseline was recorded) are not attempted in the quick tier
+    def lid(l): return '%s:%s:%s:%s' % (l.meta.get('cfg'), l.meta.get('key'), json.dumps(l.meta.get('fixed', {}), sort_keys=True), l.meta.get('spec', ''))
+    try: slow = set(json.load(open('%s/coverage/%s.json' % (core.VERIF, pid))).get('slow', []))
+    except (OSError, ValueError): slow = set()
+    skipped = []
+    if tier == 'quick' and slow and os.environ.get('VERIF_RECORD_COVERAGE') != '1':
+        for b in list(files):
+            keep = [l for l in files[b] if lid(l) not in slow]; skipped += [l for l in files[b] if lid(l) in slow]; files[b] = keep
+            if not keep: del files[b]
     nob, nd, failures, assum = core.prove_files(core.BUILD + '/props/' + pid, files, hdr=hdr, footer=footer)
-    notes['deferred_count'] = len(core.DEFERRED); notes['deferred'] = ['%s (%s)' % (l.meta['key'], why) for l, why in core.DEFERRED][:60]
+    notes['deferred_count'] = len(core.DEFERRED) + len(skipped); notes['deferred'] = ['%s (%s)' % (l.meta['key'], why) for l, why in core.DEFERRED][:60]
+    notes['deferred_known_slow'] = len(skipped)
+    extra = dict(extra or {}); extra['slow_ids'] = sorted(set(lid(l) for l, _ in core.DEFERRED) | (slow if tier == 'quick' else set()))
     corr = core.correspondence(idx, targets if targets is not None else corr_targets(cover, tier), seed, per_fn, pid, fuel=fuel, max_calls=3000 if tier == 'quick' else 60000)
     samples = []
     for ls in list(files.values())[:2]:
